@@ -11,9 +11,16 @@
     `joinPoint/insertPoint/dropPoint/liftTarget_in_range`, and `…_never_raises` for `can_join`,
     `join_point`, `insert_point`, `drop_point`, `lift_target`, `can_split`, `can_change_type`,
     `find_wrapping` on valid documents, each with its exact guard.
-  That an *approved* edit then succeeds is decided by correspondence and search (open findings: lifting
-  out of nested lists; marks the wrapper disallows; and `can_join` does not look at `check_join`'s
-  `compatible_content`, see the report of this work package).
+  * **an approved edit then succeeds** (valid normal-form document; each with its explicit decidable guard, the
+    unguarded statement being false for model and code alike — counterexamples next to each theorem):
+    `canSplit_split_applies` (`splitGuard`: a cut strictly inside a text child leaves a left half the parent accepts),
+    `canJoin_join_applies` (`joinGuard`: `check_join`'s `compatible_content`; `TextStable`),
+    `liftTarget_lift_applies_flat` / `liftTarget_lift_applies` (`liftFlatGuard`: nothing is split; `liftGuard`: the pieces
+    a splitting lift leaves behind and the target level with the copies in place are valid content; `TextStable`),
+    `findWrapping_wrap_applies` / `findWrapping_wrap_succeeds` (`wrapGuard`: the innermost wrapper allows the marks of the
+    run; `wrapBuilds`: every wrapper accepts the next one as its only child).  Each yields a schema-valid document (C01)
+    that keeps the text and leaf nodes.  Helpers: Proofs/Level.lean, LevelReplace.lean, ContentBetween.lean,
+    SplitSuccess.lean, JoinSuccess.lean, LiftSuccess.lean, LiftSplit.lean, WrapSuccess.lean.
   Helpers: Proofs/Respects.lean, Proofs/StructEdit.lean, Proofs/Structure2.lean.
 -/
 import PM.Monitor
